@@ -48,9 +48,12 @@ def share_encoder_parameters(
     :param others: The other networks whose encoder parameters will be pinned to the policy.
     :type others: EvolvableNetwork
     """
-    assert isinstance(policy, EvolvableNetwork), "Policy must be an EvolvableNetwork"
+    # NOTE: isinstance() against the runtime-checkable protocol does not see attributes
+    # that are torch submodules (python>=3.12 uses inspect.getattr_static), so check
+    # for the encoder structurally
+    assert hasattr(policy, "encoder"), "Policy must be an EvolvableNetwork"
     assert all(
-        isinstance(other, EvolvableNetwork) for other in others
+        hasattr(other, "encoder") for other in others
     ), "All others must be EvolvableNetwork"
 
     # detaching encoder parameters from computation graph reduces
